@@ -274,7 +274,8 @@ impl Request {
             if let Some(key) = RequestHeader::from_bytes(key_bytes) {
                 self.headers.append(key, value);
             } else {
-                self.headers.insert_custom(Slice::from_bytes(key_bytes), value)
+                /* repeated custom headers are joined, like the standard ones */
+                self.headers.append_custom(Slice::from_bytes(key_bytes), value)
             }
         }
 
